@@ -140,4 +140,155 @@ theorem closeH_cases (h : HSt) (c : Chan) (j : OJob) (m : Msg) :
     · exact ⟨h.done, Or.inl rfl, by simp only [hr, hc, hd, if_true]; rfl⟩
     · exact ⟨_, Or.inr rfl, by simp only [hr, hc, hd, if_true]; rfl⟩
 
+/-- `find` after one record was replaced -/
+theorem find_update (h : HSt) (m' m0 : Msg) (hm : h.find m'.id = some m0) (i : Nat) :
+    (h.update m').find i = if i = m'.id then some m' else h.find i := by
+  by_cases hi : i = m'.id
+  · rw [if_pos hi, hi]; exact find_update_self h m' m0 hm
+  · rw [if_neg hi]; exact find_update_other h m' i hi
+
+/-- what a state change that keeps every message's identity, birth and channel files (except possibly the file
+`(i0, c0)`) does to the jobs' file facts -/
+theorem jobFile_frame {s : PSt} (hw : WFp s) (h' : HSt) (i0 : Nat) (c0 : Chan)
+    (hfind : ∀ i m, s.h.find i = some m → ∃ m', h'.find i = some m' ∧ m'.birth = m.birth ∧
+      ∀ c, (i = i0 ∧ c = c0) ∨ (m'.recs c).isSome = (m.recs c).isSome)
+    (c : Chan) (x : OJob) (hx : x ∈ s.jobs c) (hne : ¬ (x.id = i0 ∧ c = c0)) :
+    ∃ m, h'.find x.id = some m ∧ (m.recs c).isSome = true ∧ x.job.retry = nextretry x.opened m.birth c := by
+  obtain ⟨m, hm, hr, hret⟩ := hw.jobFile c x hx
+  obtain ⟨m', hm', hb, hrc⟩ := hfind x.id m hm
+  refine ⟨m', hm', ?_, by rw [hb]; exact hret⟩
+  rcases hrc c with h | h
+  · exact absurd h hne
+  · rw [h]; exact hr
+
+theorem wfp_closeSt {s : PSt} (hw : WFp s) (c : Chan) {j j' : OJob} (hj : j ∈ s.jobs c)
+    (hid : j'.id = j.id) (hjob : j'.job = j.job) : WFp (closeSt s c j') := by
+  obtain ⟨m, hm, hrec, hret⟩ := hw.jobFile c j hj
+  have hmid : m.id = j.id := (find_some hm).2
+  have hnq := hw.jobNotQ c j hj
+  have hcl : closeSt s c j' = (s.setJobs c (delJob (s.jobs c) j.id)).setH (closeH s.h c j' m) := by
+    unfold closeSt; rw [hid, hm]
+  rw [hcl]
+  -- the jobs that remain
+  have hrem : ∀ c', ∀ x ∈ ((s.setJobs c (delJob (s.jobs c) j.id)).setH (closeH s.h c j' m)).jobs c',
+      x ∈ s.jobs c' ∧ ¬ (x.id = j.id ∧ c' = c) := by
+    intro c' x hx
+    rw [setH_jobs] at hx
+    by_cases hc : c' = c
+    · subst hc; rw [setJobs_same] at hx
+      obtain ⟨h1, h2⟩ := mem_delJob.mp hx
+      exact ⟨h1, fun h => h2 h.1⟩
+    · rw [setJobs_other _ _ _ _ hc] at hx; exact ⟨hx, fun h => hc h.2⟩
+  have hnodup : ∀ c', ((((s.setJobs c (delJob (s.jobs c) j.id)).setH (closeH s.h c j' m)).jobs c').map (·.id)).Nodup := by
+    intro c'
+    rw [setH_jobs]
+    by_cases hc : c' = c
+    · subst hc; rw [setJobs_same]; exact delJob_nodup _ (hw.jobNodup _)
+    · rw [setJobs_other _ _ _ _ hc]; exact hw.jobNodup c'
+  -- an entry of another channel heap with the message's id: its file exists
+  have hother : ∀ c', c' ≠ c → m.id ∈ ids (s.h.q c') → (m.recs c').isSome = true := by
+    intro c' _ hmem
+    obtain ⟨e, he, hei⟩ := List.mem_map.mp hmem
+    obtain ⟨m2, hm2, hr2⟩ := hw.wf.hasFile c' e he
+    rw [hei, hm] at hm2; cases hm2; exact hr2
+  rcases closeH_cases s.h c j' m with ⟨hdef, hH⟩ | ⟨hdef, d', hd', hH⟩
+  · -- recipients left: back into the channel heap at `retry`
+    rw [hH]
+    have hheap := insert_spec (s.h.q c) { dt := j'.job.retry, id := j'.id } (hw.wf.heap c)
+    have hids := ids_insert (s.h.q c) { dt := j'.job.retry, id := j'.id } (hw.wf.heap c)
+    have hwf1 : WF (mkSt s.h c ((s.h.q c).insert { dt := j'.job.retry, id := j'.id }) s.h.done) := by
+      refine wf_mkSt hw.wf c _ _ hheap.1 hw.wf.heapDone ?_ ?_
+      · refine hids.nodup_iff.mpr (List.nodup_cons.mpr ⟨?_, hw.wf.nodupQ c⟩)
+        show j'.id ∉ ids (s.h.q c)
+        rw [hid]; exact hnq
+      · intro e he
+        rcases (mem_insert _ _ _ (hw.wf.heap c)).mp he with h | h
+        · subst h; exact ⟨m, by show s.h.find j'.id = some m; rw [hid]; exact hm, hrec⟩
+        · exact hw.wf.hasFile c e h
+    have hfm : (mkSt s.h c ((s.h.q c).insert { dt := j'.job.retry, id := j'.id }) s.h.done).find m.id = some m := by
+      rw [mkSt_find, hmid]; exact hm
+    have hwf2 : WF ((mkSt s.h c ((s.h.q c).insert { dt := j'.job.retry, id := j'.id }) s.h.done).update m) := by
+      refine wf_update hwf1 m m hfm ?_
+      intro c' hmem
+      by_cases hc : c' = c
+      · subst hc; exact hrec
+      · rw [mkSt_q_other _ _ _ _ _ hc] at hmem; exact hother c' hc hmem
+    have hfind : ∀ i, ((mkSt s.h c ((s.h.q c).insert { dt := j'.job.retry, id := j'.id }) s.h.done).update m).find i = s.h.find i := by
+      intro i
+      rw [find_update _ m m hfm i, mkSt_find]
+      by_cases hi : i = m.id
+      · rw [if_pos hi, hi, hmid]; exact hm.symm
+      · rw [if_neg hi]
+    refine ⟨by rw [setH_h]; exact hwf2, ?_, hnodup, ?_, ?_⟩
+    · intro c' x hx
+      obtain ⟨hx1, hx2⟩ := hrem c' x hx
+      rw [setH_h, update_q]
+      by_cases hc : c' = c
+      · subst hc; rw [mkSt_q_same]
+        intro hmem
+        rcases List.mem_cons.mp (hids.mem_iff.mp hmem) with h | h
+        · exact hx2 ⟨by rw [h]; exact hid, rfl⟩
+        · exact hw.jobNotQ _ x hx1 h
+      · rw [mkSt_q_other _ _ _ _ _ hc]; exact hw.jobNotQ c' x hx1
+    · intro c' x hx
+      obtain ⟨hx1, _⟩ := hrem c' x hx
+      rw [setH_h, hfind]; exact hw.jobFile c' x hx1
+    · intro c' x hx; exact hw.jobLive c' x (hrem c' x hx).1
+  · -- every recipient done: the channel file is removed
+    rw [hH]
+    have hd'heap : Heap d' := by
+      rcases hd' with h | h
+      · rw [h]; exact hw.wf.heapDone
+      · rw [h]; exact (insert_spec _ _ hw.wf.heapDone).1
+    have hwf1 : WF (mkSt s.h c (s.h.q c) d') :=
+      wf_mkSt hw.wf c _ _ (hw.wf.heap c) hd'heap (hw.wf.nodupQ c) (hw.wf.hasFile c)
+    have hfm : (mkSt s.h c (s.h.q c) d').find (m.setRecs c none).id = some m := by
+      rw [mkSt_find, setRecs_id, hmid]; exact hm
+    have hwf2 : WF ((mkSt s.h c (s.h.q c) d').update (m.setRecs c none)) := by
+      refine wf_update hwf1 m (m.setRecs c none) hfm ?_
+      intro c' hmem
+      rw [setRecs_id] at hmem
+      by_cases hc : c' = c
+      · subst hc; rw [mkSt_q_same, hmid] at hmem; exact absurd hmem hnq
+      · rw [mkSt_q_other _ _ _ _ _ hc] at hmem
+        rw [setRecs_other _ _ _ _ hc]; exact hother c' hc hmem
+    refine ⟨by rw [setH_h]; exact hwf2, ?_, hnodup, ?_, ?_⟩
+    · intro c' x hx
+      obtain ⟨hx1, _⟩ := hrem c' x hx
+      rw [setH_h, update_q]
+      by_cases hc : c' = c
+      · subst hc; rw [mkSt_q_same]; exact hw.jobNotQ _ x hx1
+      · rw [mkSt_q_other _ _ _ _ _ hc]; exact hw.jobNotQ c' x hx1
+    · intro c' x hx
+      obtain ⟨hx1, hx2⟩ := hrem c' x hx
+      rw [setH_h]
+      refine jobFile_frame hw _ j.id c ?_ c' x hx1 hx2
+      intro i mi hmi
+      rw [find_update _ _ m hfm i, mkSt_find, setRecs_id]
+      by_cases hi : i = m.id
+      · rw [if_pos hi]
+        rw [hi, hm] at hmi; cases hmi
+        refine ⟨_, rfl, by rw [setRecs_birth], fun c2 => ?_⟩
+        by_cases hc2 : c2 = c
+        · left; exact ⟨by rw [hi]; exact hmid, hc2⟩
+        · right; rw [setRecs_other _ _ _ _ hc2]
+      · rw [if_neg hi]; exact ⟨mi, hmi, rfl, fun _ => Or.inr rfl⟩
+    · intro c' x hx; exact hw.jobLive c' x (hrem c' x hx).1
+
+/-- store the changed job, `job_close` if nothing refers to it any more -/
+theorem wfp_settle {s : PSt} (hw : WFp s) (c : Chan) {j j' : OJob} (hj : j ∈ s.jobs c)
+    (hid : j'.id = j.id) (hjob : j'.job = j.job) (hop : j'.opened = j.opened) : WFp (settle s c j') := by
+  unfold settle
+  by_cases hdone : (!j'.scanning && j'.inflight.isEmpty) = true
+  · rw [if_pos hdone]; exact wfp_closeSt hw c hj hid hjob
+  · rw [if_neg hdone]
+    refine wfp_updJob hw c hj hid hjob hop ?_
+    cases hs : j'.scanning with
+    | true => exact Or.inl rfl
+    | false =>
+      right
+      intro he
+      apply hdone
+      simp [hs, he]
+
 end Nq.Lemmas.SchedPass
